@@ -9,6 +9,7 @@ use std::collections::HashMap;
 
 use syn::{BinOp, Block, Expr, FnArg, Lit, Pat, ReturnType, Signature, Stmt, Type, UnOp};
 
+use crate::scan::expr_attrs;
 use crate::util::*;
 
 // ----------------------------------------------------------------------
@@ -98,6 +99,21 @@ pub fn paren(s: &str) -> String {
     format!("({})", t)
 }
 
+/// Does the term contain `;;` outside of all parentheses?
+fn has_top_level_seq(s: &str) -> bool {
+    let b = s.as_bytes();
+    let mut depth = 0i32;
+    for i in 0..b.len() {
+        match b[i] {
+            b'(' => depth += 1,
+            b')' => depth -= 1,
+            b';' if depth == 0 && i + 1 < b.len() && b[i + 1] == b';' => return true,
+            _ => {}
+        }
+    }
+    false
+}
+
 fn one_line(s: &str) -> String {
     s.split_whitespace().collect::<Vec<_>>().join(" ")
 }
@@ -179,7 +195,20 @@ impl Seq {
         let mut out = fin;
         for it in self.items.into_iter().rev() {
             out = match it {
-                Item::Bind(x, c) => format!("{} <- {} ;;\n{}", x, c, out),
+                Item::Bind(x, c) => {
+                    // the bound term sits at level 60: if/let/sequences need parentheses
+                    let t = c.trim_start();
+                    let c = if t.starts_with("if ")
+                        || t.starts_with("let ")
+                        || t.starts_with("match ")
+                        || has_top_level_seq(t)
+                    {
+                        format!("({})", c)
+                    } else {
+                        c
+                    };
+                    format!("{} <- {} ;;\n{}", x, c, out)
+                }
                 Item::Let(x, t) => format!("let {} := {} in\n{}", x, t, out),
                 Item::Guard(c) => format!("guard {} (\n{})", paren(&c), out),
                 Item::Try(x, r) => format!(
@@ -1225,7 +1254,7 @@ impl<'a, 'w> Tr<'a, 'w> {
 
     fn wrap_branch(s: &str) -> String {
         let t = s.trim_start();
-        if t.contains(";;") || t.starts_with("if ") || t.starts_with("let ") || t.starts_with("guard") {
+        if has_top_level_seq(t) || t.starts_with("if ") || t.starts_with("let ") || t.starts_with("guard") {
             format!("({})", s)
         } else {
             s.to_string()
@@ -1537,10 +1566,35 @@ impl<'a, 'w> Tr<'a, 'w> {
                         }
                         return self.un("`if` statement that is not an early return");
                     }
-                    return self.un(format!(
-                        "expression statement `{}`",
-                        one_line(&tokens_text(e))
-                    ));
+                    let what = match e {
+                        Expr::ForLoop(_) => "`for` loop".to_string(),
+                        Expr::While(_) => "`while` loop".to_string(),
+                        Expr::Loop(_) => "`loop`".to_string(),
+                        Expr::Assign(_) => "assignment".to_string(),
+                        Expr::Unsafe(_) => "`unsafe` block".to_string(),
+                        Expr::Macro(m) => {
+                            format!("macro `{}!`", path_idents(&m.mac.path).join("::"))
+                        }
+                        Expr::Binary(b)
+                            if matches!(
+                                b.op,
+                                BinOp::AddAssign(_)
+                                    | BinOp::SubAssign(_)
+                                    | BinOp::MulAssign(_)
+                                    | BinOp::DivAssign(_)
+                                    | BinOp::RemAssign(_)
+                                    | BinOp::BitXorAssign(_)
+                                    | BinOp::BitAndAssign(_)
+                                    | BinOp::BitOrAssign(_)
+                                    | BinOp::ShlAssign(_)
+                                    | BinOp::ShrAssign(_)
+                            ) =>
+                        {
+                            "compound assignment".to_string()
+                        }
+                        _ => format!("expression statement `{}`", one_line(&tokens_text(e))),
+                    };
+                    return self.un(what);
                 }
             }
         }
@@ -1549,26 +1603,6 @@ impl<'a, 'w> Tr<'a, 'w> {
             Some(Ty::Unit) | None => Ok((seq.render("Val tt".into()), Ty::Unit)),
             _ => self.un("block without a value"),
         }
-    }
-}
-
-fn expr_attrs(e: &Expr) -> &[syn::Attribute] {
-    match e {
-        Expr::Block(x) => &x.attrs,
-        Expr::Call(x) => &x.attrs,
-        Expr::If(x) => &x.attrs,
-        Expr::Macro(x) => &x.attrs,
-        Expr::Match(x) => &x.attrs,
-        Expr::MethodCall(x) => &x.attrs,
-        Expr::Return(x) => &x.attrs,
-        Expr::Assign(x) => &x.attrs,
-        Expr::ForLoop(x) => &x.attrs,
-        Expr::While(x) => &x.attrs,
-        Expr::Loop(x) => &x.attrs,
-        Expr::Unsafe(x) => &x.attrs,
-        Expr::Path(x) => &x.attrs,
-        Expr::Binary(x) => &x.attrs,
-        _ => &[],
     }
 }
 
@@ -1696,4 +1730,134 @@ pub fn translate_fn<'a>(w: &World<'a>, job: &FnJob<'a>) -> R<Emitted> {
             ret,
         },
     })
+}
+
+#[cfg(test)]
+mod tests {
+    use super::*;
+    use std::collections::HashMap;
+
+    const LIB: &str = r#"
+pub mod engine;
+mod t;
+pub enum Error {
+    InvalidShardSize { shard_bytes: usize },
+    UnsupportedShardCount { original_count: usize, recovery_count: usize },
+}
+"#;
+    const ENGINE: &str = r#"
+pub const GF_BITS: usize = 16;
+pub const GF_ORDER: usize = 65536;
+pub type GfElement = u16;
+"#;
+    const T: &str = r#"
+use crate::engine::{GfElement, GF_BITS, GF_ORDER};
+use crate::Error;
+use std::cmp::Ordering;
+
+fn f(a: usize, b: usize) -> Result<usize, Error> {
+    debug_assert!(a != 3, "no {}", a);
+    if a > b {
+        return Err(Error::UnsupportedShardCount { recovery_count: b, original_count: a });
+    }
+    Ok(b - a)
+}
+
+fn g(a: usize, b: usize) -> Result<(usize, bool), Error> {
+    let d = f(a, b)?;
+    let e: usize = if d % 2 == 0 { d / 2 } else if d.min(7) == 7 { d * 3 } else { 1 << d };
+    let k = f(e, GF_ORDER)? + 1;
+    match k.cmp(&d) {
+        Ordering::Less => return Ok((k, f(k, d).is_err())),
+        Ordering::Equal => {
+            let x: GfElement = (k >> GF_BITS) as GfElement;
+            Ok((usize::from(x), true))
+        }
+        Ordering::Greater => Err(Error::InvalidShardSize { shard_bytes: f(d, k)? }),
+    }
+}
+"#;
+
+    fn load() -> Crate {
+        let dir = std::env::temp_dir().join(format!("rs2v-test-{}", std::process::id()));
+        let _ = std::fs::remove_dir_all(&dir);
+        std::fs::create_dir_all(&dir).unwrap();
+        std::fs::write(dir.join("lib.rs"), LIB).unwrap();
+        std::fs::write(dir.join("engine.rs"), ENGINE).unwrap();
+        std::fs::write(dir.join("t.rs"), T).unwrap();
+        let cr = Crate::load(&dir).unwrap();
+        let _ = std::fs::remove_dir_all(&dir);
+        cr
+    }
+
+    fn find<'a>(file: &'a SrcFile, name: &str) -> (&'a Signature, &'a Block) {
+        for it in &file.ast.items {
+            if let syn::Item::Fn(f) = it {
+                if f.sig.ident == name {
+                    return (&f.sig, &f.block);
+                }
+            }
+        }
+        panic!()
+    }
+
+    #[test]
+    fn try_and_friends() {
+        let cr = load();
+        let mut error_ctors = HashMap::new();
+        error_ctors.insert("InvalidShardSize".to_string(), vec!["shard_bytes".to_string()]);
+        error_ctors.insert(
+            "UnsupportedShardCount".to_string(),
+            vec!["original_count".to_string(), "recovery_count".to_string()],
+        );
+        let mut consts = HashMap::new();
+        consts.insert("GF_BITS".to_string(), Ty::U(64));
+        consts.insert("GF_ORDER".to_string(), Ty::U(64));
+        let w = World {
+            cr: &cr,
+            error_ctors,
+            consts,
+        };
+        let file = cr.file("t.rs").unwrap();
+        let (sig, block) = find(file, "f");
+        let f = translate_fn(
+            &w,
+            &FnJob {
+                file,
+                label: "f".into(),
+                coq_name: "f".into(),
+                sig,
+                block,
+                callees: vec![],
+                extra_binders: vec![],
+                rate_supports: None,
+            },
+        )
+        .unwrap();
+        let (sig, block) = find(file, "g");
+        let g = translate_fn(
+            &w,
+            &FnJob {
+                file,
+                label: "g".into(),
+                coq_name: "g".into(),
+                sig,
+                block,
+                callees: vec![Callee {
+                    path: vec!["f".into()],
+                    first_seg_is: None,
+                    sig: f.sig.clone(),
+                }],
+                extra_binders: vec![],
+                rate_supports: None,
+            },
+        )
+        .unwrap();
+        let text = format!("{}\n{}", f.text, g.text);
+        if let Ok(p) = std::env::var("RS2V_TEST_DUMP") {
+            std::fs::write(p, &text).unwrap();
+        }
+        let expected = include_str!("../tests/expected_try.v");
+        assert_eq!(text.trim(), expected.trim());
+    }
 }
